@@ -460,9 +460,9 @@ class DeterministicFiniteAutomaton(NondeterministicFiniteAutomaton):
             if len(next_self) == 0:
                 continue
             for next_temp, other_temp in zip(sorted(list(next_self),
-                                                    key=lambda x: x[0].value),
+                                                    key=lambda x: repr(x[0].value)),
                                              sorted(list(next_other),
-                                                    key=lambda x: x[0].value)):
+                                                    key=lambda x: repr(x[0].value))):
                 next_symbol_self, next_state_self = next_temp
                 next_symbol_other, next_state_other = other_temp
                 if next_symbol_other != next_symbol_self:
